@@ -188,6 +188,13 @@ impl Cache {
         self.load_estimates.iter().map(|x| x.load(Relaxed)).collect()
     }
 
+    /// Overwrites the load estimate of shard `shard` (what any number of
+    /// peer threads sharing this cache could have left there).
+    #[cfg(kismet_verif)]
+    pub fn verif_set_load_estimate(&self, shard: usize, value: u8) {
+        self.load_estimates[shard].store(value, Relaxed);
+    }
+
     /// Returns a random shard id.
     fn random_shard_id(&self) -> usize {
         use rand::Rng;
